@@ -2,7 +2,7 @@ import N0Verif.Proto
 import N0Verif.Val
 import N0Verif.Model.Esc
 /-! driver operations of the delimited-text model (C17): `esc.split`, `esc.spec`, `esc.dlist`,
-`esc.kv`, `esc.ddict`, `esc.ser`, `esc.unesc`, `esc.rt` -/
+`esc.kv`, `esc.ddict`, `esc.ser`, `esc.unesc`, `esc.rt`, `esc.rtf`, `esc.ddu`, `esc.dlol`, `esc.dfix`, `esc.gvt` -/
 namespace N0.Drv.Esc
 open N0 N0.Proto N0.Esc
 
@@ -98,8 +98,62 @@ def handle (toks : List String) : Option String :=
         | .ok ps =>
           match unescapeDict ps with
           | .error e => some (showU e)
-          | .ok r => some ("ok " ++ showPairs' r)
+          | .ok r => some ("ok " ++ showPairs r)
     | _, _, _ => some "bad-op"
+  -- `unescape(deserialize_dict(serialize_dict(v, d, eq, ge, gn), d, equal_tag=eq, default_value=dv))`
+  | "esc.rtf" :: d :: eq :: ge :: gn :: dv :: v =>
+    match decStr d, decStr eq, parseBool ge, parseBool gn, optStr dv, readVal v with
+    | some d, some eq, some ge, some gn, some dv, some (v, []) =>
+      match ser ⟨d, eq, ge, gn, 0, 0⟩ 0 v with
+      | .error .Unsupported => some "unsupported"
+      | .error e => some (showErr e)
+      | .ok none => some "unsupported"
+      | .ok (some text) =>
+        match deserializeDict text d eq false none dv with
+        | .error e => some (showErr e)
+        | .ok ps =>
+          match unescapeDict ps with
+          | .error e => some (showU e)
+          | .ok r => some ("ok " ++ showPairs r)
+    | _, _, _, _, _, _ => some "bad-op"
+  -- `unescape(deserialize_dict(s, d, parse_empty=pe, equal_tag=eq, default_key=dk, default_value=dv))`
+  | ["esc.ddu", s, d, eq, pe, dk, dv] =>
+    match decStr s, decStr d, decStr eq, parseBool pe, optStr dk, optStr dv with
+    | some s, some d, some eq, some pe, some dk, some dv =>
+      match deserializeDict s d eq pe dk dv with
+      | .ok ps =>
+        match unescapeDict ps with
+        | .error e => some (showU e)
+        | .ok r => some ("ok " ++ showPairs r)
+      | .error e => some (showErr e)
+    | _, _, _, _, _, _ => some "bad-op"
+  -- `deserialize_list_of_lists(s, d, delimiter_for_sublists=ds, parse_empty=pe)`
+  | ["esc.dlol", s, d, ds, pe] =>
+    match decStr s, decStr d, decStr ds, parseBool pe with
+    | some s, some d, some ds, some pe =>
+      match deserializeListOfLists s d ds pe with
+      | .ok ls => some ("ok " ++ toString ls.length ++ ls.foldl (fun acc l => acc ++ " " ++ encStrs l) "")
+      | .error .Unsupported => some "unsupported"
+      | .error e => some (showErr e)
+    | _, _, _, _ => some "bad-op"
+  -- `deserialize_fixed_list(s, n, d, default_item=dflt, parse_empty=pe)`
+  | ["esc.dfix", s, d, n, dflt, pe] =>
+    match decStr s, decStr d, parseNat n, optStr dflt, parseBool pe with
+    | some s, some d, some n, some dflt, some pe =>
+      match deserializeFixedList s d n dflt pe with
+      | .ok xs => some ("ok " ++ toString xs.length ++ xs.foldl (fun acc x => acc ++ " " ++ showOpt x) "")
+      | .error .Unsupported => some "unsupported"
+      | .error e => some (showErr e)
+    | _, _, _, _, _ => some "bad-op"
+  -- `get_value_by_tag(tag, s, d, eq, default_key=dk, default_value=dv)`
+  | ["esc.gvt", tag, s, d, eq, dk, dv] =>
+    match decStr tag, decStr s, decStr d, decStr eq, optStr dk, optStr dv with
+    | some tag, some s, some d, some eq, some dk, some dv =>
+      match getValueByTag tag s d eq dk dv with
+      | .ok v => some ("ok " ++ showOpt v)
+      | .error .Unsupported => some "unsupported"
+      | .error e => some (showErr e)
+    | _, _, _, _, _, _ => some "bad-op"
   | _ => none
 
 end N0.Drv.Esc
